@@ -80,6 +80,8 @@ def main():
     n = 150
     seed = 1
     checks = CHEAP
+    offset = 0
+    out_name = "automut.json"
     a = sys.argv[1:]
     i = 0
     while i < len(a):
@@ -89,6 +91,10 @@ def main():
             seed = int(a[i + 1])
         elif a[i] == "--checks":
             checks = a[i + 1].split(",")
+        elif a[i] == "--offset":
+            offset = int(a[i + 1])
+        elif a[i] == "--out":
+            out_name = a[i + 1]
         i += 2
     shutil.rmtree(ROOT, ignore_errors=True)
     os.makedirs(ROOT)
@@ -99,7 +105,8 @@ def main():
     env = dict(os.environ, VERIF_NO_EVIDENCE="1", CARGO_NET_OFFLINE="true")
     cands = candidates(repo)
     random.Random(seed).shuffle(cands)
-    out_path = os.path.join(VERIF, "seeded", "automut.json")
+    cands = cands[offset:]
+    out_path = os.path.join(VERIF, "seeded", out_name)
     result = {"seed": seed, "candidates": len(cands), "tried": 0, "not_compiling": 0, "killed_by_suite": 0, "survivors": []}
     try:
         # warm builds
